@@ -102,6 +102,7 @@ type circRun struct {
 	log     []string // observations of the current event
 	timers  []func()
 	settled chan struct{}
+	hung    bool // a hand-over timed out: the rest of the history is not executed
 	calls   map[int]*callRt
 	script  struct{ allow, prevent, so, sc bool }
 	errs    map[int]error
@@ -334,7 +335,14 @@ func newCircRun(p *circParams) *circRun {
 	h := &circRun{now: hc.T0, settled: make(chan struct{}, 64), calls: map[int]*callRt{},
 		errs: map[int]error{}, bads: map[int]error{}, wraps: map[int]error{}, fberrs: map[int]error{}, params: *p}
 	var typedNil *pstruct
-	h.pvals = []interface{}{"boom", errors.New("panic-error"), pstruct{1, 2}, typedNil, 42}
+	// a genuine runtime.Error value (what a nil-map write raises), re-raised by the scripted functions
+	runtimeErr := func() (v interface{}) {
+		defer func() { v = recover() }()
+		var m map[int]int
+		m[0] = 1
+		return nil
+	}()
+	h.pvals = []interface{}{"boom", errors.New("panic-error"), pstruct{1, 2}, typedNil, runtimeErr}
 	switch p.Mode {
 	case "nil":
 		h.c = nil
@@ -383,6 +391,10 @@ func newCircRun(p *circParams) *circRun {
 		r.recCirc = recCirc{h: h, who: "WCloser", inner: inner}
 		return r
 	}
+	// collector lists with spare capacity, as a caller that builds a Config once and appends per circuit has them
+	cfg.Metrics.Run = make([]circuit.RunMetrics, 0, p.NRun+4)
+	cfg.Metrics.Fallback = make([]circuit.FallbackMetrics, 0, p.NFb+4)
+	cfg.Metrics.Circuit = make([]circuit.Metrics, 0, p.NCirc+4)
 	for i := 0; i < p.NRun; i++ {
 		cfg.Metrics.Run = append(cfg.Metrics.Run, &recRun{h: h, who: fmt.Sprintf("(WUser %d%%nat)", i)})
 	}
@@ -393,6 +405,17 @@ func newCircRun(p *circParams) *circRun {
 		cfg.Metrics.Circuit = append(cfg.Metrics.Circuit, &recCirc{h: h, who: fmt.Sprintf("(WUser %d%%nat)", i)})
 	}
 	h.c = circuit.NewCircuitFromConfig("x", cfg)
+	// a second circuit built from the same Config value (same backing arrays), with its own collectors appended over the
+	// shared prefix and the default open/close logic: nothing it does may reach, or take away, the first circuit's collectors
+	{
+		d := cfg
+		d.General.ClosedToOpenFactory, d.General.OpenToClosedFactory = nil, nil
+		d.Metrics.Run = append(cfg.Metrics.Run[:0:cap(cfg.Metrics.Run)], inertRun{}, inertRun{}, inertRun{})
+		d.Metrics.Fallback = append(cfg.Metrics.Fallback[:0:cap(cfg.Metrics.Fallback)], inertFb{}, inertFb{}, inertFb{})
+		d.Metrics.Circuit = append(cfg.Metrics.Circuit[:0:cap(cfg.Metrics.Circuit)], inertCirc{}, inertCirc{}, inertCirc{})
+		// (these appends overwrite the caller's own backing arrays; the first circuit is unaffected only if it copied its lists)
+		_ = circuit.NewCircuitFromConfig("decoy", d)
+	}
 	h.initOpen = h.c.IsOpen()
 	// NewCircuitFromConfig merges the library defaults into zero-valued settings: read the live values back
 	eff := h.c.Config()
@@ -417,7 +440,17 @@ func (h *circRun) badErr(k int) error {
 	return h.errFor(h.bads, k, func() error { return &circuit.SimpleBadRequest{Err: fmt.Errorf("bad-%d", k)} })
 }
 func (h *circRun) wrapErr(k int) error {
-	return h.errFor(h.wraps, k, func() error { return fmt.Errorf("wrapped: %w", circuit.SimpleBadRequest{Err: fmt.Errorf("inner-bad-%d", k)}) })
+	// a bad request somewhere in the error's chain or tree: wrapped once, joined with another error, or one of two %w
+	return h.errFor(h.wraps, k, func() error {
+		bad := circuit.SimpleBadRequest{Err: fmt.Errorf("inner-bad-%d", k)}
+		switch k % 3 {
+		case 1:
+			return errors.Join(fmt.Errorf("unrelated-%d", k), bad)
+		case 2:
+			return fmt.Errorf("two causes: %w and %w", fmt.Errorf("unrelated-%d", k), bad)
+		}
+		return fmt.Errorf("wrapped: %w", bad)
+	})
 }
 func (h *circRun) fbErr(k int) error {
 	return h.errFor(h.fberrs, k, func() error { return fmt.Errorf("fb-error-%d", k) })
@@ -571,7 +604,7 @@ func (h *circRun) startCall(id int, cs callSpec) {
 		rt.phase = "done"
 		h.settled <- struct{}{}
 	}()
-	<-h.settled
+	h.waitSettled()
 }
 
 func (h *circRun) reading() {
@@ -583,8 +616,31 @@ func (h *circRun) reading() {
 	h.add(fmt.Sprintf("OReading %s %s %s", hc.B(o), hc.Zi(a), hc.Zi(b)), evRec{Kind: "reading", B: o, Z: [3]int64{a, b, 0}})
 }
 
+// waitSettled / send: every hand-over between the driver and a parked call has a deadline, so that a library change
+// which makes a call block (or lets a wall-clock deadline decide) shows as a failed case instead of a hung check.
+func (h *circRun) waitSettled() {
+	select {
+	case <-h.settled:
+	case <-time.After(15 * time.Second):
+		h.hung = true
+		panic("harness: a call neither parked nor returned within 15s")
+	}
+}
+
+func (h *circRun) send(rt *callRt, o circOp) {
+	select {
+	case rt.resume <- o:
+	case <-time.After(15 * time.Second):
+		h.hung = true
+		panic("harness: a parked call did not take its continuation within 15s")
+	}
+}
+
 // do executes one event; returns the observations as one Coq list term.
 func (h *circRun) do(o circOp) (out string, panicked bool) {
+	if h.hung {
+		return "[]", true
+	}
 	h.mu.Lock()
 	h.log = nil
 	h.mu.Unlock()
@@ -609,8 +665,8 @@ func (h *circRun) do(o circOp) (out string, panicked bool) {
 				break // ill-formed event: a no-op on both sides
 			}
 			h.script.so, h.script.sc = o.SO, o.SC
-			rt.resume <- o
-			<-h.settled
+			h.send(rt, o)
+			h.waitSettled()
 		case "cancel":
 			if rt := h.calls[o.ID]; rt != nil {
 				rt.cancel()
@@ -647,14 +703,21 @@ func (h *circRun) do(o circOp) (out string, panicked bool) {
 
 // finish releases every goroutine still parked so that nothing leaks between cases.
 func (h *circRun) finish() {
+	defer func() { _ = recover() }()
+	if h.hung {
+		for _, rt := range h.calls {
+			rt.cancel()
+		}
+		return
+	}
 	for _, rt := range h.calls {
 		for rt.phase == "run" || rt.phase == "fb" {
 			if rt.phase == "run" {
-				rt.resume <- circOp{K: "endrun", Res: "nil"}
+				h.send(rt, circOp{K: "endrun", Res: "nil"})
 			} else {
-				rt.resume <- circOp{K: "endfb", Res: "fnil"}
+				h.send(rt, circOp{K: "endfb", Res: "fnil"})
 			}
-			<-h.settled
+			h.waitSettled()
 		}
 		rt.cancel()
 	}
@@ -749,3 +812,25 @@ func emitCirc(w io.Writer, f *hc.File, imports string) {
 	fmt.Fprintln(w, "Definition result := Eval vm_compute in circ_mismatches cases.")
 	fmt.Fprintln(w, "Print result.")
 }
+
+// collectors of the decoy circuit: they record nothing
+type inertRun struct{}
+
+func (inertRun) Success(context.Context, time.Time, time.Duration)       {}
+func (inertRun) ErrFailure(context.Context, time.Time, time.Duration)    {}
+func (inertRun) ErrTimeout(context.Context, time.Time, time.Duration)    {}
+func (inertRun) ErrBadRequest(context.Context, time.Time, time.Duration) {}
+func (inertRun) ErrInterrupt(context.Context, time.Time, time.Duration)  {}
+func (inertRun) ErrConcurrencyLimitReject(context.Context, time.Time)    {}
+func (inertRun) ErrShortCircuit(context.Context, time.Time)              {}
+
+type inertFb struct{}
+
+func (inertFb) Success(context.Context, time.Time, time.Duration)    {}
+func (inertFb) ErrFailure(context.Context, time.Time, time.Duration) {}
+func (inertFb) ErrConcurrencyLimitReject(context.Context, time.Time) {}
+
+type inertCirc struct{}
+
+func (inertCirc) Opened(context.Context, time.Time) {}
+func (inertCirc) Closed(context.Context, time.Time) {}
